@@ -373,7 +373,7 @@ func c21wExec(endpoints []string, cli *clientv3.Client, cs c21wCase) (res c21wRu
 		res.groups = append(res.groups, g)
 		if !ok {
 			fail("broker-metadata-differs-after-quiescence", fmt.Sprintf("%s: %v after the last snapshot write, %s", where, d, what))
-			return true
+			return false // the case ends here (every further wait would time out as well)
 		}
 		quiescent = true
 		return true
@@ -515,6 +515,7 @@ func TestVerifC21Watch(t *testing.T) {
 	}
 	defer cli.Close()
 	var coq, jsons []string
+	unknownFails := 0
 	runOne := func(cs c21wCase, sample bool) {
 		run := c21wExec(endpoints, cli, cs)
 		canon, _ := json.Marshal(cs)
@@ -531,7 +532,11 @@ func TestVerifC21Watch(t *testing.T) {
 		}
 		if run.fail != "" {
 			shr := cs
-			if run.key != "broker-put-of-stale-local-copy" && run.key != "grow-lost-to-refresh-before-persist" { // timing-dependent known findings: not shrunk
+			known := run.key == "broker-put-of-stale-local-copy" || run.key == "grow-lost-to-refresh-before-persist"
+			if !known {
+				unknownFails++
+			}
+			if !known && unknownFails <= 2 { // timing-dependent known findings are not shrunk
 				for pi := range shr.Phases {
 					pi := pi
 					shr.Phases[pi] = vShrink(shr.Phases[pi], func(ws []c21wWrite) bool {
@@ -542,7 +547,15 @@ func TestVerifC21Watch(t *testing.T) {
 					})
 				}
 			}
-			rep.Fail("acked-persist", run.key, run.fail, shr)
+			what := run.fail
+			if !known && unknownFails <= 2 {
+				if r2 := c21wExec(endpoints, cli, shr); r2.harness == "" && r2.key == run.key {
+					what = r2.fail
+				} else {
+					shr = cs
+				}
+			}
+			rep.Fail("acked-persist", run.key, what, shr)
 		}
 		coq = append(coq, c21wCoq(cs, run))
 		jsons = append(jsons, string(canon))
@@ -565,7 +578,7 @@ func TestVerifC21Watch(t *testing.T) {
 		}
 		r := vNewRand(vSeed() ^ 0x5151)
 		n := vN(40, 400)
-		for i := 0; i < n; i++ {
+		for i := 0; i < n && unknownFails < 4; i++ { // a violating tree times out at every wait: stop early
 			runOne(c21wGen(r.Fork()), true)
 		}
 	}
